@@ -2,7 +2,8 @@
 C12 - translator tie: the body of `get_region_for_chip` (rig/machine_control/regions.py) is regenerated
 from the source into `Gen/PyFun.lean` (Python ints -> `Int`, `& | ^ << >>` -> Mathlib's `Int.land/lor/xor`
 and shifts); here it is proved EQUAL to the model's `regionForChip` on naturals whenever the model
-returns a value (level <= 3; for level > 3 Python raises `ValueError: negative shift count`).
+returns a value (level <= 3; for level > 3 Python raises `ValueError: negative shift count`).  Second round:
+the integer attributes stored by `RegionCoreTree.__init__` (`scale = 4 ** (4 - level)`, `shift = 6 - 2*level`).
 The proof pulls the casts out (all intermediate values are non-negative), then closes by `rfl` or, for a
 harmless rewrite of the source, by constant evaluation / commutativity / bit extensionality.
 -/
@@ -38,6 +39,15 @@ theorem gen_get_region_for_chip (x y level r : Nat) (h : regionForChip x y level
          simp only [Nat.testBit_or, Nat.testBit_and, Nat.testBit_xor, Nat.testBit_shiftLeft,
            Nat.testBit_shiftRight, Nat.mul_comm]
          grind))
+
+/-- `RegionCoreTree.__init__` as written in the source: the integer attributes it stores are the model's
+(`RTree.new`'s `baseX`, `baseY`, `level`; `scale` and `shift` as functions of the level), for every level the tree
+uses (0..3; the two attributes holding the selection array and the children are not integers and not translated) -/
+theorem gen_region_tree_init (s0 s1 s2 s3 s4 : Int) (x0 y0 lv : Nat) (h : lv ≤ 3) :
+    PyFun.RegionCoreTree_init s0 s1 s2 s3 s4 x0 y0 lv
+      = ((x0 : Int), (y0 : Int), ((scale lv : Nat) : Int), ((shift lv : Nat) : Int), (lv : Int)) := by
+  have : lv = 0 ∨ lv = 1 ∨ lv = 2 ∨ lv = 3 := by omega
+  rcases this with rfl | rfl | rfl | rfl <;> simp [PyFun.RegionCoreTree_init, scale, shift] <;> decide
 
 /-- non-vacuity: the model accepts every level <= 3 -/
 example : regionForChip 5 9 3 = .ok 67829792 ∧ PyFun.get_region_for_chip 5 9 3 = 67829792 := by
